@@ -543,6 +543,8 @@ C18 = Spec('C18',
     checker_name='ApiSched.chk_C18_replace / chk_C18_cached', model_name='Sem/Conc.v, Sem/ConcLock.v')
 
 C12.xcheck = xcheck.codec_crosscheck
+for _p in (C01, C02, C03, C11):
+    _p.xcheck = xcheck.tree_crosscheck
 C17.xcheck = None
 
 REGISTRY = {'C18': C18, 'C19': C19, 'C17': C17, 'C15': C15, 'C09': C09, 'C06': C06, 'C04': C04, 'C12': C12, 'C16': C16, 'C01': C01, 'C05': C05, 'C10': C10, 'C13': C13, 'C14': C14, 'C20': C20, 'C02': C02, 'C03': C03, 'C07': C07, 'C08': C08, 'C11': C11}
